@@ -199,6 +199,7 @@ func runJob(prog *ssa.Program, fn *ssa.Function, j *Job, jf *JobFile, ov map[str
 		}
 	}
 	ecfg.FallbackTimeoutMs = flagOr(j, "fallback-timeout-ms", 120000)
+	ecfg.DetForced = flagOr(j, "det-sched", 0) == 1
 	m := exec.NewMachine(prog, ctx, sv, ecfg)
 	defer m.Close()
 	oc := m.Explore(fn)
